@@ -43,10 +43,41 @@
     - [WFheap h W]: every slice lies inside its array and two slices are the same
       window or do not overlap (spare capacity is arbitrary and may overlap anything);
     - [kept h0 W h]: arrays keep their lengths and every slice of [W] reads in [h]
-      as a permutation of what it reads as in [h0]. *)
+      as a permutation of what it reads as in [h0].
+
+    Histories (Model/ValidatorsHeap.v, Proofs/ValidatorsRefine.v, Proofs/ValidatorsHist.v):
+    - [pass]: one run over the log: [PVap], [PVfc files] (the two range validators),
+      [PSm] (state.MeasuredData.References() + SortAndMerge(), which pcr0tool
+      validate_security does before it validates), [PAll files]
+      (validator.All().Validate: the three validators, results appended);
+      [run_passes h0 l ps]: the runs [ps] made one after the other on the log [l],
+      each in the memory the previous one left: (memory afterwards, results);
+      [vpass l' p]: what the VALUE-level model says about a run [p] on the log [l'];
+      [kth_run h0 l ps k p r]: the k-th run of [ps] is [p] and returned [r];
+    - [log_sized l]: the Size() recorded beside every artifact of the log is the
+      length of its content (a projection invariant of the harness);
+    - [sreq]: two logs that differ only in the order of ranges inside references.
+
+    UEFIFiles (Model/Validators.v [uefi_files], Proofs/ValidatorsFiles.v):
+    - [fnode]: a *uefi.File node of the parsed image (range, section types);
+      [file_matches]: the filter of the final-coverage validator;
+      [node_ok sz img n]: the node lies inside the image and has a byte;
+      [in_exec_file nodes j]: byte j belongs to a file that has a PE32/PIC/TE section.
+
+    PARTIAL theorems, exactly what is missing and why it cannot be had here:
+    all of them carry the one hypothesis [ArtsDist A] and nothing else.  The code
+    orders and pairs references with compareReferenceType, which looks at the
+    artifact's TYPE NAME only: for two artifacts of one type the statements are
+    FALSE of the faithful model -- [C10_actor_iff_refuted] (missed issue, two
+    RawBytes), [C10_final_exact_refuted] (missed coverage issue, two RawBytes),
+    [C10_validators_return_refuted] (panic, two BIOSImage instances) -- and the
+    first is reproduced on the real code by the probe and by generated flows
+    (finding C10-D6-foreign-artifact).  Removing the hypothesis needs the repair
+    of compareReferenceType (C11-D6), not a better proof. *)
 From Coq Require Import Permutation.
 From CSS Require Import Lib.Base Model.Ranges Model.Refs Model.Validators Model.ValidatorsHeap
-  Proofs.Ranges Proofs.Refs Proofs.Validators Proofs.ValidatorsHeap.
+  Proofs.Ranges Proofs.Refs Proofs.Validators Proofs.ValidatorsHeap
+  Proofs.ValidatorsRefine Proofs.ValidatorsFiles Proofs.ValidatorsHist.
 
 (** ** The model's SortAndMerge / Exclude are instances of C11's relations *)
 
@@ -247,4 +278,189 @@ Proof.
   split; [constructor; [apply pointedb_spec; vm_compute; reflexivity | constructor]|].
   split; [apply wf_logb_spec; vm_compute; reflexivity|].
   vm_compute. reflexivity.
+Qed.
+
+(** ** The validators return (no panic, no impossible sort order) *)
+
+(** PARTIAL: [ArtsDist] (see the header: without it compareReferenceType panics on
+    two instances of one non-RawBytes type, [C10_validators_return_refuted]). *)
+Theorem C10_validators_return_partial : forall sz A files l,
+  ArtsDist A -> WFlog sz A l ->
+  match files with Ok f => std_refs sz f /\ arts_in A f | _ => True end ->
+  (exists out, vap l = Ok out) /\ (exists out, vfc files l = Ok out).
+Proof. exact (fun sz A files l AD W F => conj (vap_total sz A AD l W) (vfc_total sz A AD files l W F)). Qed.
+Print Assumptions C10_validators_return_partial.
+
+Theorem C10_validators_return_refuted : exists sz A l,
+  WFlog sz A l /\ vap l = Panic /\ vfc (Err 1) l = Panic.
+Proof. exact validators_return_refuted. Qed.
+Print Assumptions C10_validators_return_refuted.
+
+(** ** The data source of the final-coverage validator is part of the model *)
+
+(** datasources.UEFIFiles(filter).Data on the file nodes of a parsed image: no
+    error, references that meet every hypothesis [C10_final_exact_partial] makes
+    about [files], covering exactly the bytes of the files the filter selects --
+    files with SOME section of type PE32, PIC or TE (constants tied to fiano's
+    source by spec/consts.json). *)
+Theorem C10_uefi_files_exact : forall sz img nodes,
+  zlen (acontent img) = sz (aid img) -> sz (aid img) <= W32 -> Forall (node_ok sz img) nodes ->
+  exists files, uefi_files img nodes = Ok files /\
+    std_refs sz files /\ arts_in [img] files /\ Forall pointed files /\
+    forall a j, covers sz files a j <-> a = aid img /\ in_exec_file nodes j.
+Proof. exact (fun sz img nodes Hs Hl F => uefi_files_spec sz img Hs Hl nodes F). Qed.
+Print Assumptions C10_uefi_files_exact.
+
+Theorem C10_filter_any_section : forall n,
+  file_matches n = true <-> exists t, In t (fn_secs n) /\ (t = SEC_PE32 \/ t = SEC_PIC \/ t = SEC_TE).
+Proof. exact file_matches_iff. Qed.
+Print Assumptions C10_filter_any_section.
+
+(** the hypotheses are met by a node list with adjacent executable files (merged
+    into one range), a file whose executable section is not the first one, a file
+    with RAW/DEPEX sections only and a file without sections *)
+Example C10_ex_uefi_files : Forall (node_ok xsz64 ximg) ex_nodes /\
+  uefi_files ximg ex_nodes = Ok [mkRef ximg MPhys [mkR (W32 - 64 + 32) 16]].
+Proof. exact ex_nodes_ok. Qed.
+
+(** The final-coverage clause with the files computed from the image: nothing is
+    reported iff every byte of every file with a PE32/PIC/TE section was measured
+    by some step, otherwise one issue at the last step whose NonMeasured denotes
+    exactly the unmeasured bytes of those files.  The hypotheses about [files] of
+    [C10_final_exact_partial] are gone.  PARTIAL: [ArtsDist] only. *)
+Theorem C10_final_exact_files_partial : forall sz A img nodes l out,
+  ArtsDist A -> In img A -> zlen (acontent img) = sz (aid img) -> sz (aid img) <= W32 ->
+  Forall (node_ok sz img) nodes -> WFlog sz A l -> l <> [] ->
+  vfc (uefi_files img nodes) l = Ok out ->
+  exists nm measured,
+    (forall a m j, den measured a m j <-> m = MNil /\ covers sz (meas_upto l) a j) /\
+    (forall a m j, den nm a m j <-> m = MNil /\ (a = aid img /\ in_exec_file nodes j) /\ ~ covers sz (meas_upto l) a j) /\
+    (nm = [] <-> forall j, in_exec_file nodes j -> covers sz (meas_upto l) (aid img) j) /\
+    out = match nm with
+          | [] => []
+          | _ => [mkVI (zlen l - 1) 6 nm measured]
+          end.
+Proof. exact final_exact_files. Qed.
+Print Assumptions C10_final_exact_files_partial.
+
+(** without [ArtsDist] the final-coverage statement fails (two RawBytes artifacts:
+    a file of the first one, the same offsets of the second one measured: nothing
+    reported) *)
+Theorem C10_final_exact_refuted : exists sz A files l out,
+  std_refs sz files /\ arts_in A files /\ Forall pointed files /\ WFlog sz A l /\ l <> [] /\
+  vfc (Ok files) l = Ok out /\ out = [] /\
+  exists a j, covers sz files a j /\ ~ covers sz (meas_upto l) a j.
+Proof. exact final_exact_refuted. Qed.
+Print Assumptions C10_final_exact_refuted.
+
+(** MeasuredDataSlice.References(): all references of all entries, in order *)
+Theorem C10_measured_references_flatten : forall (T : Type) (ds d2 : list (list T)) (x : T),
+  (In x (mds_refs ds) <-> exists d, In d ds /\ In x d) /\ mds_refs (ds ++ d2) = mds_refs ds ++ mds_refs d2.
+Proof. exact (fun T ds d2 x => conj (mds_refs_in ds x) (mds_refs_app ds d2)). Qed.
+Print Assumptions C10_measured_references_flatten.
+
+(** ** Histories: every run of any sequence of runs over one log in one memory *)
+
+(** The verdict does not depend on the order in which the ranges of a reference
+    lie in memory (which is all a run can change, [C10_validation_keeps_log]). *)
+Theorem C10_verdict_blind_to_range_order : forall sz A files l l',
+  Forall2 sreq l l' -> WFlog sz A l ->
+  vap l = vap l' /\ vfc files l = vfc files l' /\ vni l = vni l'.
+Proof.
+  exact (fun sz A files l l' F W =>
+    conj (vap_req sz A l l' F W) (conj (vfc_req sz A files l l' F W) (vni_go_req l l' F 0))).
+Qed.
+Print Assumptions C10_verdict_blind_to_range_order.
+
+(** One run: the slice-level model (the one compared with the code together with
+    the memory behind the log) returns the issues of the value-level model (the one
+    the verdict theorems are about) on the log as it reads when the run starts. *)
+Theorem C10_slice_model_refines_value_model : forall sz A h l files,
+  WFheap h (windows l) -> log_sized l -> WFlog sz A (val_log h l) ->
+  snd (hvap h l) = vap (val_log h l) /\ snd (hvfc h files l) = vfc files (val_log h l).
+Proof. exact heap_refines. Qed.
+Print Assumptions C10_slice_model_refines_value_model.
+
+(** Induction over the sequence of runs (init: the log as projected; step: one run
+    of any of the four kinds; invariant: the memory is the first one up to in-place
+    sorts of slices of the log): EVERY run returns what the value-level model says
+    about the log as it read BEFORE THE FIRST RUN -- the chain of validator.All(),
+    pcr0tool's merge of all measurements before it, any number of repetitions in
+    any order.  No hypothesis on spare capacities or on slices sharing arrays
+    beyond [WFheap]. *)
+Theorem C10_every_run_is_the_first : forall sz A h0 l ps,
+  WFheap h0 (windows l) -> log_sized l -> WFlog sz A (val_log h0 l) ->
+  snd (run_passes h0 l ps) = map (vpass (val_log h0 l)) ps /\
+  kept h0 (windows l) (fst (run_passes h0 l ps)).
+Proof. exact passes_first. Qed.
+Print Assumptions C10_every_run_is_the_first.
+
+(** hence the actors clause at full strength for every run of the actors
+    validator, whatever ran before it on the same log.  PARTIAL: [ArtsDist] only. *)
+Theorem C10_actor_iff_every_run_partial : forall sz A h0 l ps k out,
+  ArtsDist A -> WFheap h0 (windows l) -> log_sized l -> WFlog sz A (val_log h0 l) ->
+  kth_run h0 l ps k PVap (RIss (Ok out)) ->
+  forall i, (exists v, In v out /\ vi_step v = Z.of_nat i) <->
+    (exists st a code, takes_over (val_log h0 l) i st a /\ s_code st = Some code /\
+       exists x j, unprot sz (val_log h0 l) i code x j).
+Proof. exact actor_iff_every_run. Qed.
+Print Assumptions C10_actor_iff_every_run_partial.
+
+(** ... and the final-coverage clause, with the files of the parsed image.
+    PARTIAL: [ArtsDist] only. *)
+Theorem C10_final_exact_every_run_partial : forall sz A img nodes h0 l ps k out,
+  ArtsDist A -> In img A -> zlen (acontent img) = sz (aid img) -> sz (aid img) <= W32 ->
+  Forall (node_ok sz img) nodes ->
+  WFheap h0 (windows l) -> log_sized l -> WFlog sz A (val_log h0 l) -> l <> [] ->
+  kth_run h0 l ps k (PVfc (uefi_files img nodes)) (RIss (Ok out)) ->
+  exists nm measured,
+    (forall a m j, den measured a m j <-> m = MNil /\ covers sz (meas_upto (val_log h0 l)) a j) /\
+    (forall a m j, den nm a m j <-> m = MNil /\ (a = aid img /\ in_exec_file nodes j) /\ ~ covers sz (meas_upto (val_log h0 l)) a j) /\
+    (nm = [] <-> forall j, in_exec_file nodes j -> covers sz (meas_upto (val_log h0 l)) (aid img) j) /\
+    out = match nm with
+          | [] => []
+          | _ => [mkVI (zlen l - 1) 6 nm measured]
+          end.
+Proof. exact final_exact_every_run. Qed.
+Print Assumptions C10_final_exact_every_run_partial.
+
+(** validator.All().Validate, at any place of the sequence: the issues of the three
+    validators (each as the theorems above say), appended in the order of All() *)
+Theorem C10_chain_every_run : forall sz A h0 l ps k files c,
+  WFheap h0 (windows l) -> log_sized l -> WFlog sz A (val_log h0 l) ->
+  kth_run h0 l ps k (PAll files) (RChain (Ok c)) ->
+  exists a b, vap (val_log h0 l) = Ok a /\ vfc files (val_log h0 l) = Ok b /\
+    c = chain a b (vni (val_log h0 l)).
+Proof. exact chain_every_run. Qed.
+Print Assumptions C10_chain_every_run.
+
+(** every run returns (an error of UEFIFiles included).  PARTIAL: [ArtsDist] only. *)
+Theorem C10_every_run_returns_partial : forall sz A h0 l ps k p r,
+  ArtsDist A -> WFheap h0 (windows l) -> log_sized l -> WFlog sz A (val_log h0 l) ->
+  kth_run h0 l ps k p r ->
+  match p, r with
+  | PVap, RIss o => exists out, o = Ok out
+  | PSm, RRefs o => exists out, o = Ok out
+  | PVfc (Err _), RIss o => exists out, o = Ok out
+  | PAll (Err _), RChain o => exists out, o = Ok out
+  | PVfc _, RIss _ => True
+  | PAll _, RChain _ => True
+  | _, _ => False
+  end.
+Proof. exact every_run_returns. Qed.
+Print Assumptions C10_every_run_returns_partial.
+
+(** the hypotheses of the history theorems are met by a log whose memory IS
+    written by the runs: the three ranges of step 0 lie out of order in a slice
+    with spare capacity; pcr0tool's merge sorts them in place, and the five runs
+    return what the first reading says *)
+Example C10_ex_history :
+  WFheap ok_heap (windows ok_log) /\ log_sized ok_log /\ ArtsDist [wimg] /\ WFlog xsz64 [wimg] (val_log ok_heap ok_log) /\
+  fst (run_passes ok_heap ok_log ok_passes) = [[]; [mkR 16 4; mkR 32 4; mkR 48 4; mkR 0 0]; [mkR 8 4]] /\
+  snd (run_passes ok_heap ok_log ok_passes) =
+    [RRefs (Ok [mkRef wimg MNil [mkR 8 4; mkR 16 4; mkR 32 4; mkR 48 4]]);
+     RIss (Ok []); RIss (Ok [mkVI 1 5 [] []]); RChain (Ok [inl (mkVI 1 5 [] [])]); RIss (Ok [])].
+Proof.
+  destruct ok_log_hist_hyps as (H1 & H2 & H3 & H4). destruct ok_log_runs as (R1 & R2).
+  repeat (split; [assumption|]). assumption.
 Qed.
